@@ -276,6 +276,9 @@ def _arg_thunks(rng):
         d = 2 if cname.endswith("FQ2") else 12
         coeffs = [rng.randrange(C.field_modulus) for _ in range(d)]
         out.append((cname + "(list)", lambda C=C, coeffs=coeffs: (C, [list(coeffs)])))
+        q = C.field_modulus
+        unred = [[-1, q, q + 5, 2 * q, -q, 0, 1, q - 1, -7, 3 * q + 2, q * q, -q * q + 1][i % 12] for i in range(d)]
+        out.append((cname + "(list of unreduced ints)", lambda C=C, unred=unred: (C, [list(unred)])))
         x, y = C(list(coeffs)), C([rng.randrange(C.field_modulus) for _ in range(d)])
         for opn, fn in (("mul", lambda a, b: a * b), ("div", lambda a, b: a / b), ("add", lambda a, b: a + b), ("pow", lambda a, b: a ** 5),
                         ("inv", lambda a, b: a.inv()), ("neg", lambda a, b: -a), ("eq", lambda a, b: a == b)):
